@@ -14,6 +14,28 @@
   re-subscription; the environment is idle, so the model's input is `fail k` on the deployed
   system (the drop itself and the answers about the surviving tasks — TASK_RUNNING of a task
   that is ACTIVE already — change nothing in the model).
+  Instant idle = immediately after the last API call returned. The harness looks at the roles
+  right before it injects: `(pending (i…))` in the observation lists the tasks whose role did
+  not yet report the live state — the reply that ended the last transition (the creation's
+  CONFIGURE, START_ACTIVITY) had been counted, its `go updateTaskState` had not run. That is an
+  environment choice the monitor takes from the observation: the model's initial system then
+  has those updates in `updq` (roles one state behind), and — ONLY then, and only if a critical
+  victim is among them — the watcher goroutine of `subscribeToWfState` may still be
+  `Watch.starting`. Variants: the updates run before the failure (the usual picture), after it
+  with the watcher subscribed (role overwritten, environment still ERROR), after it with the
+  watcher subscribing later (environment stays healthy: spec 0, hyp
+  `stale_update_overwrites_error`, theorem `C03_finding_stale_update_overwrites_error`).
+  At race / racelate / raceself the harness looks the same way at the tasks that are NOT held
+  (their reply to the command in flight was on the stream already): `(pending …)` there lists
+  those whose role did not yet report the transition's destination; the model then keeps their
+  update in `updq` and may apply it after the failure (the dead task's role then reports the
+  destination instead of ERROR; the watcher has subscribed long ago, the environment's end
+  state is the model's).
+  The same final picture is reached on the real core with the watcher subscribed when
+  `updateTaskState` of the two goroutines interleaves inside `aggregatorRole.updateState` (between
+  the root's merge(ERROR) and its `parent.updateState(r.state.get())`) — the model keeps
+  `updState` atomic; the late-subscription schedule stands for both. Without `(pending …)`
+  none of this is offered: env ≠ ERROR is then a plain VIOLATION as before.
 -/
 import ControlModel.Model.Failure
 
@@ -61,17 +83,22 @@ def mkLeaves (ts : TState) : List Task → Forest
 /-- The role tree as the deployment leaves it: loaded STANDBY/INACTIVE, every task reported
     ACTIVE, then CONFIGURED (then RUNNING) — through the model's own update functions, so an
     aggregator nobody forwards to keeps what it was loaded with (C11's barren aggregator). -/
-def deployed (sc : Scen) : Forest :=
+def deployed (sc : Scen) (pend : List Nat := []) : Forest :=
   let n := sc.tasks.length
   let f0 : Forest := .agg .STANDBY .INACTIVE (mkLeaves .STANDBY sc.tasks) .nil
   let f0 := (List.range n).foldl (fun f i => (updStatus f [0, i] .ACTIVE).1) f0
-  let f1 := (List.range n).foldl (fun f i => (updState f [0, i] .CONFIGURED).1) f0
-  if sc.live = .RUNNING then (List.range n).foldl (fun f i => (updState f [0, i] .RUNNING).1) f1 else f1
+  -- `pend`: the update of the LAST transition's reply has not been applied to these
+  let cfgd := (List.range n).filter (fun i => sc.live = .RUNNING || !pend.contains i)
+  let f1 := cfgd.foldl (fun f i => (updState f [0, i] .CONFIGURED).1) f0
+  if sc.live = .RUNNING then
+    ((List.range n).filter (fun i => !pend.contains i)).foldl (fun f i => (updState f [0, i] .RUNNING).1) f1
+  else f1
 
-def mkSys (sc : Scen) : Sys :=
+def mkSys (sc : Scen) (pend : List Nat := []) : Sys :=
   let reqs : List Req := [.control .DEPLOY true false, .control .CONFIGURE true false] ++
     (if sc.live = .RUNNING then [.control .START_ACTIVITY true false] else [])
-  { f := deployed sc, env := finalEnv [] sc.tasks.length {} reqs }
+  { f := deployed sc pend, env := finalEnv [] sc.tasks.length {} reqs,
+    updq := pend.map (fun i => ([0, i], if sc.live = .RUNNING then TState.RUNNING else TState.CONFIGURED)) }
 
 def hostOf (sc : Scen) (i : Nat) : Nat := (sc.tasks.getD i { crit := false, host := 0 }).host
 def critOf (sc : Scen) (i : Nat) : Bool := (sc.tasks.getD i { crit := false, host := 0 }).crit
@@ -108,8 +135,12 @@ def applyTask (s : Sys) (i : Nat) : Sys :=
 /-- The model's final system for the scenario; `late` = queued state updates run after everything
     else that is enabled (racelate: the watcher's GO_ERROR is already waiting for the mutex).
     (The `ready` bits of the model's inputs play no role on a buffered channel.) -/
-def finalSys (sc : Scen) (finishFirst : Bool := false) (modes : List Nat := []) (late : Bool := false) : Option Sys :=
-  let base := mkSys sc
+def finalSys (sc : Scen) (finishFirst : Bool := false) (modes : List Nat := []) (late : Bool := false)
+    (pend : List Nat := []) (stale : Nat := 0) : Option Sys :=
+  let base := mkSys sc (if sc.instant == "idle" then pend else [])
+  -- race / racelate / raceself with `pend`: replies that had been sent but whose state update had not run when the
+  -- harness looked: `stale` = 0: they run before the failure all the same; 1: after it
+  let applyAllR (s : Sys) : Sys := pend.foldl applyTask s
   let vs := (victims sc).map (fun i => (path i, true))
   let (ev, dst) := raceEv sc.live
   let fin (s : Sys) : Sys := if late then settleLate cfg 96 s else settle cfg 96 s
@@ -117,19 +148,29 @@ def finalSys (sc : Scen) (finishFirst : Bool := false) (modes : List Nat := []) 
   let setLeaves (s : Sys) (ps : List (List Nat)) (v : TState) (r : Bool) : Sys :=
     ps.foldl (fun acc p => drain cfg (setLeaf cfg acc p v r)) s
   match sc.instant with
-  | "idle" | "drop" | "dropabrupt" => some (fin (fail sc.kind base vs))
+  | "idle" | "drop" | "dropabrupt" =>
+    -- `stale` (only with `pend`): 0 = the pending updates run before the failure; 1 = after it, the watcher subscribed;
+    -- 2 = watcher still starting: failure, updates, subscription; 3 = failure, subscription, updates
+    let applyAll (s : Sys) : Sys := pend.foldl applyTask s
+    match stale with
+    | 0 => some (fin (fail sc.kind (applyAll base) vs))
+    | 1 => some (fin (fail sc.kind base vs))
+    | 2 => some (fin (istep cfg (applyAll (fail sc.kind { base with w := .starting } vs)) .subscribe))
+    | _ => some (fin (applyAll (istep cfg (fail sc.kind { base with w := .starting } vs) .subscribe)))
   | "race" | "racelate" => do
     let h ← holder sc
     if (victims sc).contains h then none   -- the reply that is held back would never come
     let others := (indices sc).filter (· ≠ h)
-    let s1 := setLeaves base (others.map path) dst true
-    let s2 := { s1 with inflight := some { ev := ev, api := true, pending := [(path h, dst)], ok := true } }
-    pure (fin (fail sc.kind s2 vs))
+    let s1 := setLeaves base ((others.filter (fun i => !pend.contains i)).map path) dst true
+    let s2 := { s1 with inflight := some { ev := ev, api := true, pending := [(path h, dst)], ok := true },
+                        updq := (others.filter pend.contains).map (fun i => (path i, dst)) }
+    pure (fin (if stale == 0 then fail sc.kind (applyAllR s2) vs else applyAllR (fail sc.kind s2 vs)))
   | "raceself" =>
     let others := (indices sc).filter (· ≠ sc.victim)
-    let s1 := setLeaves base (others.map path) dst true
-    let s2 := { s1 with inflight := some { ev := ev, api := true, pending := [], ok := !(critOf sc sc.victim) } }
-    some (fin (fail sc.kind s2 vs))
+    let s1 := setLeaves base ((others.filter (fun i => !pend.contains i)).map path) dst true
+    let s2 := { s1 with inflight := some { ev := ev, api := true, pending := [], ok := !(critOf sc sc.victim) },
+                        updq := (others.filter pend.contains).map (fun i => (path i, dst)) }
+    some (fin (if stale == 0 then fail sc.kind (applyAllR s2) vs else applyAllR (fail sc.kind s2 vs)))
   | "burst" =>
     -- all replies have arrived. `modes`: per victim, how its own reply's `go updateTaskState(dst)` interleaves with
     -- the failure's `go updateTaskState(ERROR)`: 0 = reply first; 1 = failure first (a schedule of the model: the
@@ -183,15 +224,16 @@ def insertNat (x : Nat) : List Nat → List Nat
 
 def sortNats (xs : List Nat) : List Nat := xs.foldl (fun acc x => insertNat x acc) []
 
-def obsOf (sc : Scen) (s : Sys) : SExp :=
+def obsOf (sc : Scen) (s : Sys) (pend : List Nat := []) : SExp :=
   let log := if racing sc && (s.log.any isBody) && s.transRes.isSome then dropToBody s.log else s.log
   let roles := (leaves s.f).map fun l => SExp.list [.atom l.2.1.name, .atom l.2.2.name]
   let trans := match s.transRes with
     | none => "-"
     | some (true, _) => "ok"
     | some (false, _) => "err"
-  .list [
-    .list [.atom "pre", .atom sc.live.name],
+  .list ([
+    .list [.atom "pre", .atom sc.live.name]] ++
+    (if pend.isEmpty then [] else [.list [.atom "pending", natsSx pend]]) ++ [
     .list [.atom "victims", natsSx (victims sc)],
     .list [.atom "env", .atom s.env.st.name],
     .list [.atom "root", .atom (rootState s.f).name, .atom (rootStatus s.f).name],
@@ -199,7 +241,7 @@ def obsOf (sc : Scen) (s : Sys) : SExp :=
     .list [.atom "run", .list (runEvents log)],
     .list [.atom "stamps", SExp.ofBool (isVal s.env.vars.soeor), SExp.ofBool (isVal s.env.vars.eoeor)],
     .list [.atom "stops", natsSx (sortNats (s.stopped.filterMap fun p => p.getLast?))],
-    .list [.atom "trans", .atom trans]]
+    .list [.atom "trans", .atom trans]])
 
 /-! ### Spec on what the implementation reported -/
 
@@ -249,9 +291,24 @@ def processLine (line : String) : String :=
   | [inp, impl] =>
     match (SExp.parse inp).bind parseScen with
     | some sc =>
-      match finalSys sc with
+      -- environment choice read off the observation: tasks whose role was one state behind right before the injection
+      let pend : List Nat := match (SExp.parse impl).bind (fun io => field io "pending") with
+        | some [.list xs] =>
+          if sc.instant == "idle" || sc.instant == "race" || sc.instant == "racelate" || sc.instant == "raceself" then
+            (xs.filterMap SExp.nat?).filter (· < sc.tasks.length)
+          else []
+        | _ => []
+      match finalSys sc false [] false pend 0 with
       | some sr =>
-        let oR := toString (obsOf sc sr)
+        let oR := toString (obsOf sc sr pend)
+        -- the watcher goroutine may still be starting only if a critical victim's own update is among the pending
+        -- ones and the failure is of a kind that puts the role into ERROR
+        let lateOK := sc.instant == "idle" && pend.any (fun i => (victims sc).contains i && critOf sc i) && sc.kind.drives sc.live
+        let staleLate : List String :=
+          if lateOK then [2, 3].filterMap fun m => (finalSys sc false [] false pend m).map (fun x => toString (obsOf sc x pend)) else []
+        let staleSub : List String :=
+          if pend.isEmpty then [] else
+            [false, true].filterMap fun l => (finalSys sc false [] l pend 1).map (fun x => toString (obsOf sc x pend))
         -- burst: whether the transition ends before or after the failure is handled, and how each victim's own
         -- reply interleaves with its failure, is not determined: accept any of these schedules (monitor style)
         let nv := (victims sc).length
@@ -264,14 +321,16 @@ def processLine (line : String) : String :=
             modeLists.flatMap fun ms => [false, true].filterMap fun ff => (finalSys sc ff ms).map (fun x => toString (obsOf sc x))
           else if sc.instant == "racelate" then
             -- the watcher's GO_ERROR already waits for the mutex: it can run before the held reply's state update
-            ((finalSys sc false [] true).map (fun x => toString (obsOf sc x))).toList
-          else []
+            ((finalSys sc false [] true pend 0).map (fun x => toString (obsOf sc x pend))).toList ++ staleSub
+          else staleSub ++ staleLate
         let vR := oR :: variants
         let model := if vR.contains impl then impl else oR
         match SExp.parse impl with
         | some io =>
           let spec := specOn sc io
-          let hyp := if spec then "-" else hypOf sc io
+          let hyp := if spec then "-"
+            else if staleLate.contains impl && !(oR :: staleSub).contains impl then "stale_update_overwrites_error"
+            else hypOf sc io
           s!"{model}\t{if spec then 1 else 0}\t{hyp}"
         | none => s!"{model}\t0\t-"
       | none => "BADSCENARIO\t0\t-"
